@@ -229,8 +229,10 @@ func newShardOwner(s ShardInfo, ownerFreqs map[int]int) (uint64, error) {
 		minFreq int
 	)
 
+	// Map iteration order is random, and this runs inside the replicated state machine:
+	// break ties by the lowest node ID so that every replica picks the same owner.
 	for id, freq := range ownerFreqs {
-		if minId == -1 || freq < minFreq {
+		if minId == -1 || freq < minFreq || (freq == minFreq && id < minId) {
 			minId, minFreq = int(id), freq
 		}
 	}
